@@ -335,17 +335,27 @@ impl SearchState {
         let next_mtu = (self.lower_bound as i32 + self.upper_bound as i32) / 2;
 
         // Binary search stopping condition
-        if ((next_mtu - self.last_probed_mtu as i32).unsigned_abs() as u16) < self.minimum_change {
+        let candidate = if ((next_mtu - self.last_probed_mtu as i32).unsigned_abs() as u16)
+            < self.minimum_change
+        {
             // Special case: if the upper bound is far enough, we want to probe it as a last
             // step (otherwise we will never achieve the upper bound)
             if self.upper_bound.saturating_sub(self.last_probed_mtu) >= self.minimum_change {
-                return Some(self.upper_bound);
+                self.upper_bound
+            } else {
+                return None;
             }
+        } else {
+            next_mtu as u16
+        };
 
+        // A probe that is not larger than what is already known to work cannot raise the estimate,
+        // and acknowledging it must not lower it
+        if candidate <= self.lower_bound {
             return None;
         }
 
-        Some(next_mtu as u16)
+        Some(candidate)
     }
 }
 
